@@ -140,7 +140,7 @@ macro_rules! new_harness {
     };
 }
 
-//@ harness name=bf_new_w_be prop=C09,C20 variants=blowfish tier=thorough bits=464 stub=1 est=320 mem=30 desc="W: Blowfish<BE>::new_from_slice(key[..len]), len symbolic 0..=57: Err exactly outside 4..=56; otherwise the state equals Schneier's key expansion from the pi digits (key bytes cycled, 18 P XORs, 521 chained encryptions, store order), with the block encryption uninterpreted per call; arguments, P array and newest stored pair compared with the oracle's at every call, the full state at calls 0/9/137/265/393 and at the end"
+//@ harness name=bf_new_w_be prop=C09,C20 variants=blowfish tier=thorough bits=464 stub=1 est=320 mem=30 cbmc_args=--max-field-sensitivity-array-size;1100 desc="W: Blowfish<BE>::new_from_slice(key[..len]), len symbolic 0..=57: Err exactly outside 4..=56; otherwise the state equals Schneier's key expansion from the pi digits (key bytes cycled, 18 P XORs, 521 chained encryptions, store order), with the block encryption uninterpreted per call; arguments, P array and newest stored pair compared with the oracle's at every call, the full state at calls 0/9/137/265/393 and at the end"
 new_harness!(bf_new_w_be, BE);
-//@ harness name=bf_new_w_le prop=C09,C20 variants=blowfish tier=thorough bits=464 stub=1 est=320 mem=30 desc="W: BlowfishLE::new_from_slice: same key expansion as Blowfish<BE> (keying does not depend on the block byte order), len symbolic 0..=57, co-routine stub as bf_new_w_be"
+//@ harness name=bf_new_w_le prop=C09,C20 variants=blowfish tier=thorough bits=464 stub=1 est=320 mem=30 cbmc_args=--max-field-sensitivity-array-size;1100 desc="W: BlowfishLE::new_from_slice: same key expansion as Blowfish<BE> (keying does not depend on the block byte order), len symbolic 0..=57, co-routine stub as bf_new_w_be"
 new_harness!(bf_new_w_le, LE);
